@@ -75,6 +75,14 @@ def isArith : BinOp → Bool
   | .add | .sub | .mul | .div | .mod => true
   | _ => false
 
+/-- what the specification admits as the body of the free mixed operator `(signed?, bigLeft, o)`: no overload for the
+    bitwise operators; for `+ - * / %` the same operator, the operands in the order of the call — or, for the commutative
+    `+` and `*` only, in either order (an overload may forward to its mirror image) -/
+def mixedOk (s bl : Bool) (o : BinOp) : Bool :=
+  match mixedBody s bl o with
+  | none => !isArith o
+  | some b => isArith o && decide (b.op = o) && (b.bigLeft == bl || decide (o = .add) || decide (o = .mul))
+
 inductive Stmt where
   | old (op : POp)
   | mixed (o : BinOp) (d : Reg) (t : IntTy) (y : Int) (bigLeft : Bool)
